@@ -163,13 +163,13 @@ type lsRun struct {
 	conns  [2]*netio.PipeConn
 	ws     []*lsWorker
 	// oracle bookkeeping, per direction d (= writer end)
-	closed   [2]string     // first completed closer: "eof" (CloseWrite first) | "closed" (CloseRead first)
-	rdl, wdl [2]dlState    // read deadline of the reader end of d, write deadline of the writer end of d
-	wrote    [2][][]byte   // payloads in issue order
-	wroteN   [2][]int      // consumed counts (-1 = in flight)
-	chunks   [2][][]byte   // everything read on d
-	wids     [2]int        // writes issued on d
-	wflight  [2]bool       // a Write of end e is in flight
+	closed   [2]string   // first completed closer: "eof" (CloseWrite first) | "closed" (CloseRead first)
+	rdl, wdl [2]dlState  // read deadline of the reader end of d, write deadline of the writer end of d
+	wrote    [2][][]byte // payloads in issue order
+	wroteN   [2][]int    // consumed counts (-1 = in flight)
+	chunks   [2][][]byte // everything read on d
+	wids     [2]int      // writes issued on d
+	wflight  [2]bool     // a Write of end e is in flight
 	lastLen  int
 	sawErr   bool
 	nchunks  int
